@@ -194,6 +194,42 @@ theorem readFru_ms (Φ : (Nat → Option Nat) → Prop) (hdev : FruStorage mk cn
 
 end fru
 
+/-! ### fru area reads: read_fru_data(offset, count), _read_fru_area -/
+section fruarea
+variable (mk : Nat → Nat → Req) (cnt : Rsp → Nat) (pay : Rsp → List Nat) (back : List Nat)
+  (base : Req → Rsp) (store : List Nat)
+
+theorem readFruRange_pure (rs fuel off count n : Nat)
+    (hdev : FruStorage mk cnt pay (off + count) base store) (hf : count + 1 ≤ fuel) (hrs : 1 ≤ rs) :
+    outcome (readFruRange mk cnt pay back rs fuel off count) (pureDev base) n =
+      .ok ((store.drop off).take count) := by
+  unfold readFruRange
+  rw [readFru_exact mk cnt pay back (off + count) base store hdev fuel off rs [] n (by omega) hrs]
+  simp
+
+theorem readFruRange_ms (Φ : (Nat → Option Nat) → Prop) (rs fuel off count : Nat)
+    (hdev : FruStorage mk cnt pay (off + count) base store) (hf : count + rs + 1 ≤ fuel) (hrs : 1 ≤ rs) :
+    MultiSafeOn Φ base (readFruRange mk cnt pay back rs fuel off count) := by
+  unfold readFruRange
+  exact readFru_ms mk cnt pay back (off + count) base store Φ hdev fuel off rs [] (by omega) hrs
+
+/-- `_read_fru_area` on a device that serves every read inside its `N` bytes: the header and
+the area it announces lie inside the device. -/
+theorem readFruArea_ms (Φ : (Nat → Option Nat) → Prop) (N rs fuel off : Nat)
+    (hdev : ∀ area, area ≤ N → FruStorage mk cnt pay area base store)
+    (h5 : off + 5 ≤ N) (harea : off + ((store.drop off).take 5).getD 1 0 * 8 ≤ N)
+    (hf : ((store.drop off).take 5).getD 1 0 * 8 + rs + 6 ≤ fuel) (hrs : 1 ≤ rs) :
+    MultiSafeOn Φ base (readFruArea mk cnt pay back rs fuel off) := by
+  unfold readFruArea
+  refine ms_bind Φ base _ _
+    (readFruRange_ms mk cnt pay back base store Φ rs fuel off 5 (hdev _ h5) (by omega) hrs) (fun d hd => ?_)
+  obtain ⟨n, hn⟩ := hd
+  rw [readFruRange_pure mk cnt pay back base store rs fuel off 5 n (hdev _ h5) (by omega) hrs] at hn
+  cases hn
+  exact readFruRange_ms mk cnt pay back base store Φ rs fuel off _ (hdev _ harea) (by omega) hrs
+
+end fruarea
+
 /-- read_fru_data(offset=None): Get FRU Inventory Area Info, then the loop. -/
 theorem readFruData_ms (Φ : (Nat → Option Nat) → Prop) (info : Req) (areaOf : Rsp → Nat)
     (mk : Nat → Nat → Req) (cnt : Rsp → Nat) (pay : Rsp → List Nat) (back : List Nat)
